@@ -3,7 +3,7 @@ interpreter (harness) and through the regenerated model / the ISA specification 
 import vlib
 from vlib import zhex
 
-HELPER_CODES = {'mix': 1, 'clobber': 2, 'rsp': 3, 'gather_bytes': 4}
+HELPER_CODES = {'mix': 1, 'clobber': 2, 'rsp': 3, 'gather_bytes': 4, 'low': 2}   # low: the value of clobber, code placed below 2 GiB
 ERR_KINDS = {'oob_load': 1, 'oob_store': 2, 'unaligned': 3, 'unknown_helper': 4, 'call_depth': 5, 'bad_call_type': 6,
              'tail_call': 7, 'no_program': 8, 'not_compiled': 9, 'budget': 10, 'verifier': 11, 'other': 12}
 
@@ -115,7 +115,8 @@ def coq_term(c, a):
         return None
     memb, mbuffb, xmemb, stackb = a['L']
     ranges = '[%s]' % '; '.join('(%d, %d)' % ((xmemb + o) % 2 ** 64, (xmemb + o + ln) % 2 ** 64) for o, ln in c.ranges)
-    helpers = '[%s]' % '; '.join('(%d, %d)' % (i, HELPER_CODES[n]) for i, n in c.helpers)
+    # registrations in the order they are made; the model looks an id up from the most recent one back
+    helpers = '[%s]' % '; '.join('(%d, %d)' % (i, HELPER_CODES[n]) for i, n in reversed(c.helpers))
     if c.calc is None:
         calc = 'None'
     else:
